@@ -365,7 +365,13 @@ def run(ctx: Ctx):
                      ("tzstr-EST5EDT", lambda: dtz.tzstr("EST5EDT")), ("stdlib-utc", lambda: _tz.utc), ("stdlib-plus5", lambda: _tz(timedelta(hours=5))),
                      ("stdlib-minus3", lambda: _tz(timedelta(hours=-3))), ("pytz-utc", lambda: _pytz.utc), ("dateutil-UTC", lambda: dtz.UTC),
                      ("zoneinfo-Tokyo", lambda: ZoneInfo("Asia/Tokyo")), ("pytz-fixed-60", lambda: _pytz.FixedOffset(60)),
-                     ("stdlib-plus0130", lambda: _tz(timedelta(minutes=90)))]
+                     ("stdlib-plus0130", lambda: _tz(timedelta(minutes=90))),
+                     # tz database aliases of UTC and fixed-offset zones whose abbreviation is "UTC"/"GMT"/a number
+                     ("zoneinfo-Etc/UTC", lambda: ZoneInfo("Etc/UTC")), ("zoneinfo-Zulu", lambda: ZoneInfo("Zulu")),
+                     ("zoneinfo-Etc/Universal", lambda: ZoneInfo("Etc/Universal")), ("zoneinfo-UCT", lambda: ZoneInfo("UCT")),
+                     ("pytz-Etc/UTC", lambda: _pytz.timezone("Etc/UTC")), ("pytz-Zulu", lambda: _pytz.timezone("Zulu")),
+                     ("zoneinfo-GMT", lambda: ZoneInfo("GMT")), ("zoneinfo-Etc/GMT+5", lambda: ZoneInfo("Etc/GMT+5")),
+                     ("pytz-Etc/GMT-3", lambda: _pytz.timezone("Etc/GMT-3")), ("zoneinfo-Africa/Abidjan", lambda: ZoneInfo("Africa/Abidjan"))]
             for rounds in range(2 if ctx.quick else 12):
                 order = list(kinds)
                 rnd.shuffle(order)
@@ -389,6 +395,49 @@ def run(ctx: Ctx):
                         if not ok:
                             ctx.fail("P:C02:zoned-value-equal", {"tzkind": name, "wall": wall.isoformat(), "provider": prov,
                                                                  "naive_back": bool(g1 is not None and g1.tzinfo is None)}, obs, repr(d))
+            # a custom VTIMEZONE is a component like any other: every property of it and of its observances (X- ones with
+            # parameters included) is read back, whatever the provider does with the definition
+            from icalendar import TimezoneDaylight as _TzD
+            from vf.parsercommon import full_alpha as _fa
+            for tzid_c, with_x in (("Custom/Zone-C02", True), ("Custom Zone 2", True), ("Custom/Plain", False)):
+                cal_c = Calendar()
+                cal_c.add("prodid", "-//verif//")
+                cal_c.add("version", "2.0")
+                tz_c = Timezone()
+                tz_c.add("tzid", tzid_c)
+                if with_x:
+                    tz_c.add("x-lic-location", tzid_c)
+                for cls_o, st, frm, to, nm, mon in ((TimezoneStandard, datetime(1970, 10, 25, 3), 2, 1, "OFF", 10), (_TzD, datetime(1970, 3, 29, 2), 1, 2, "ON", 3)):
+                    o = cls_o()
+                    o.add("dtstart", st)
+                    o.add("tzoffsetfrom", timedelta(hours=frm))
+                    o.add("tzoffsetto", timedelta(hours=to))
+                    o.add("tzname", nm)
+                    o.add("rrule", {"freq": "yearly", "bymonth": mon, "byday": "-1su"})
+                    if with_x:
+                        o.add("x-observance-note", "note " + nm, parameters={"X-SRC": "verif"})
+                        o.add("comment", "c " + nm)
+                    tz_c.add_component(o)
+                cal_c.add_component(tz_c)
+                ev_c = Event()
+                ev_c.add("uid", "1")
+                ev_c.add("dtstart", datetime(2024, 7, 1, 12, 0), parameters={"TZID": tzid_c})
+                cal_c.add_component(ev_c)
+                ctx.evaluations += 1
+                ctx.case(("custom-vtimezone", tzid_c, prov), True)
+                try:
+                    data_c = cal_c.to_ical()
+                    back_c = Calendar.from_ical(data_c)
+                    def _wire(t):     # names, types, parameters, encodings (the supplied rule is a plain dict: its native form differs by design)
+                        return {"name": t["name"], "props": [q[:4] for q in t["props"]], "kids": [_wire(k_) for k_ in t["kids"]]}
+                    want_t, got_t = _wire(_fa(cal_c)), _wire(_fa(back_c))
+                    # the event's DTSTART comes back zoned (its native value differs by design): compare the VTIMEZONE subtree in full
+                    ok = want_t["kids"][0] == got_t["kids"][0] and back_c.to_ical() == data_c
+                    obs = [k for k in got_t["kids"][0]["kids"]] if not ok else None
+                except Exception as x:   # noqa: BLE001
+                    ok, obs = False, type(x).__name__ + ": " + str(x)[:80]
+                if not ok:
+                    ctx.fail("P:C02:value-equal", {"what": "custom VTIMEZONE subtree", "tzid": tzid_c, "provider": prov}, repr(obs)[:400], None)
             # properties with a UTC-converting setter: a zoned value of any family is stored and read back as the same instant,
             # written in the Z form
             from dateutil import tz as _dtz2
